@@ -15,6 +15,7 @@ from .spec import SpecCtx, REG, opt_is_none
 from .sym import Engine, Obligation, PathLimit
 
 sys.setrecursionlimit(100000)
+z3.set_param('memory_max_size', 8000)
 threading.stack_size(512 * 1024 * 1024)
 
 
@@ -67,6 +68,11 @@ def _verify(repo, ctab, spec, res):
     E.cur_fi = fi
     E.depth0 = True
     E.loop_ordinals = loop_ordinals(fi.node)
+    from .sym import loop_header
+    E.loop_headers = {}
+    for sub in ast.walk(fi.node):
+        if isinstance(sub, (ast.For, ast.While)) and id(sub) in E.loop_ordinals:
+            E.loop_headers[E.loop_ordinals[id(sub)]] = loop_header(sub)
     st = State(ctab)
     st.assume(st.alloc > 0)
     env = {}
@@ -77,7 +83,7 @@ def _verify(repo, ctab, spec, res):
         else:
             v = unpack(ty, z3.Const('arg_' + nm, sort_of(ty)))
         if ty.is_reflike:
-            st.assume(z3.And(v.t > 0, v.t < st.alloc))
+            st.assume(z3.And(v.t > 0, v.t < st.alloc), st.tag_fact(v))
         else:
             st.assume_wf(v)
         env[nm] = v
@@ -155,6 +161,9 @@ def _verify(repo, ctab, spec, res):
             _bind_defs(E, spec, ctx, entry)
             E.obligations.append(_mk(spec, 'cover/return', s, z3.BoolVal(True), kind='cover', line=None, trace=s.trace, entry=entry))
             for (en, eexpr, opts) in spec.ensures:
+                needs = (opts or {}).get('needs')
+                if needs and any(nm not in ps.env and nm not in ps.ghost for nm in needs):
+                    continue      # clause about locals that do not exist on this path
                 f = E.speceval.formula(eexpr, ctx)
                 s.assume(*ctx.side)
                 cases = (opts or {}).get('cases')
@@ -246,6 +255,9 @@ def verify_function(repo, ctab, spec):
             _verify(repo, ctab, spec, res)
         except Unsupported as ex:
             res.error = 'outside the verified subset: %s' % (ex,)
+            import os
+            if os.environ.get('PYVC_TRACE'):
+                traceback.print_exc()
         except PathLimit as ex:
             res.error = 'path limit: %s' % (ex,)
         except RecursionError:
